@@ -60,13 +60,20 @@ CLAIM = (
     "out-of-range indices, wrong array counts or an invalid array in multi-cell assignment, bad field names) is tried on one "
     "live object: it must raise, leave copy / independent Vector and the main Vector's schema and metadata untouched and change "
     "nothing outside its own footprint (inside it only old or requested values), and the history continues exactly from the "
-    "observed state. Model checking is the right level because the "
+    "observed state. Width dimension: Vectors with 9, 10, 12, 17 and 33 fields (distinct value per column, row and cell), every "
+    "removal of 1, 2, n-2, n-1 fields and of all-but-K for families of small K incl. survivors of index >= 8, add_fields, field "
+    "set / arithmetic / get by name, copy, as roots of depth 1-2, the names given sorted, reversed and in two fixed shuffles and "
+    "as str / list / tuple / set / dict keys. Global-mode dimension: from six initial states (float, int64, uint8 and bool cells) "
+    "and their depth-1 successors every event and every refused operation is executed under warnings-as-errors and under "
+    "np.errstate(all='raise'): it must give the default-mode result, or — if the mode turns it into an exception — satisfy the "
+    "refused-operation oracle plus the structural invariants (names, units and cell columns agree; flatten consistent). Model checking is the right level because the "
     "property quantifies over all operation histories of a small state machine."
 )
 NOTE = (
     "Trusted: the reference model in checks/C11.py (about 150 lines: nested lists + column operations written independently of "
-    "vector.py), the event alphabet and the depth bound; float64 cell data only (integer cells, which numpy would truncate "
-    "under /=, are outside the alphabet); the property does not promise that a REFUSED operation is atomic, so refused "
+    "vector.py), the event alphabet and the depth bound; float64 cell data in the main search, integer / unsigned / bool cells "
+    "only in the global-mode dimension (depth <= 2; the model stores into a cell with numpy's own casting, so the truncation of "
+    "a float result in an integer cell is numpy semantics, not judged); torch is not involved in vector.py, so no torch mode; the property does not promise that a REFUSED operation is atomic, so refused "
     "operations are judged by a footprint oracle (partial application inside the addressed cells / column is counted in the "
     "evidence, not flagged); propagation of in-place field operations between a kept slice and its parent is not judged "
     "(only whole-cell replacements must be local); singleton lists in assignments and removing every field are outside the alphabet; whether "
@@ -85,6 +92,7 @@ RULE = (
     "the last level; flatten, field flatten and the flatten/set_flattened round trip everywhere); in every expanded state "
     "the battery of refused operations on one live object, then observers and one legal event from the observed state; a "
     "kept slice is only taken when another event can follow and only whole-cell replacements are enabled while it is alive. thorough adds all "
+    "width sequences and global-mode executions are enumerated completely as stated in bounds; thorough adds every keep-3 removal for 33 fields and all "
     "length-8 histories that deviate from a varied default history in <= 2 positions (and from a repeated += in <= 2 / <= 1). A transition is non-trivial when it "
     "reaches a canonical state not seen before; distinct outcomes = distinct canonical states over all shards."
 )
@@ -819,11 +827,12 @@ def refusals(S, T, F):
         flat("setflat_too_short", np.array(F[0, : tot - 1], copy=True))
         flat("setflat_len0", np.empty((0,)))
         flat("setfield_too_short", [float(x) for x in F[1, : tot - 1]], nf - 1, via="setitem")
-        flat("setflat_strings", ["a"] * tot)
+        if not any(a.dtype.kind == "b" for _, a in pop):  # a bool cell takes any non-empty string as True
+            flat("setflat_strings", ["a"] * tot)
         out.append(("setflat_2d", lambda: v[f0].set_flattened(np.zeros((tot, 1))), None))
     if pop and pop[-1][1].shape[0] >= 2:  # too short, but the tail that is left for the last cell has length 1 and would broadcast
         flat("setflat_tail_broadcasts", np.array(F[0, : tot - pop[-1][1].shape[0] + 1], copy=True))
-    if tot >= 2:
+    if tot >= 2 and not any(a.dtype.kind == "b" for _, a in pop):
         flat("setflat_strings_bad_tail", [repr(float(x)) for x in F[0, : tot - 1]] + ["z"])
     flat("setfield_too_long", [float(x) for x in F[1, : tot + 1]], nf - 1, via="setitem")
     out.append(("setflat_scalar", lambda: v[f0].set_flattened(3.0), None))
@@ -2164,7 +2173,9 @@ def run(ctx):
         "whether copy() carries metadata over is not pinned; only that the two dicts are independent",
         "a mixed index such as v[0:2, 1] keeps the integer axis with length 1; a partial index is padded with full slices",
         "a negative integer index in v[-1, ..] = array is accepted by the library (Python list semantics) and modelled as such; set_data / get_data refuse it",
-        "outside the alphabet: singleton lists in assignments, removing every field, integer-typed cells",
+        "outside the alphabet: singleton lists in assignments, removing every field; integer / bool cells only in the global-mode dimension",
+        "global modes: warnings.simplefilter('error') and np.errstate(all='raise') are applied to the library call only; the reference model is shielded from them",
+        "on /repo HEAD no event of the alphabet emits a warning or raises a floating-point flag for float, int64, uint8 or bool cells (measured; the evidence counts mode_*_turned_into_exception_* would show otherwise)",
     )
 
     def once():
